@@ -633,15 +633,11 @@ def c14(tier):
                 'aliasing templates; thorough: all. distinct_nontrivial = distinct descriptors judged.')
     exe = build('debug')
     wd = scratch('c14')
-    r = tlc_or_die('MC_Objects', workers=8, timeout=1800)
+    r = tlc_or_die('MC_Objects', env=({} if tier == 'thorough' else {'STRIDE': '80', 'OFFSET': str(seed() % 80)}), workers=8, timeout=1800)
     chk.add_tlc(r)
     ds = [g['d'] for g in r.lines.get('REPLAY', [])]
     ds.sort()
-    chk.notes['descriptors_enumerated'] = len(ds)
-    if tier != 'thorough':
-        small = [d for d in ds if d[0] != 'dispatch' or len(d) <= 4]
-        deep = [d for d in ds if d[0] == 'dispatch' and len(d) > 4]
-        ds = small + deep[(seed() % 80)::80]
+    chk.notes['descriptors_enumerated'] = len(ds)       # quick: the sample is taken inside the specification (Keep)
     progs = []
     for d in ds:
         ast = {'dispatch': dispatch_ast, 'alias': alias_ast, 'value': value_ast}[d[0]](d)
